@@ -279,6 +279,8 @@ Result apply_patch(File& out_file, RejectWriter& reject_writer, const std::vecto
     if (options.reverse_patch)
         reverse(patch);
 
+    const bool creates_file = patch.old_file_path == "/dev/null";
+
     LineWriter output(out_file, options);
     LineNumber line_number = 0; // NOTE: relative to 'old' file.
     LineNumber offset_old_lines_to_new = 0;
@@ -291,6 +293,12 @@ Result apply_patch(File& out_file, RejectWriter& reject_writer, const std::vecto
         auto& hunk = patch.hunks[hunk_num];
 
         auto location = locate_hunk(lines, hunk, options.ignore_whitespace, offset_error, options.max_fuzz, line_number);
+
+        // A patch which creates a file claims that there is nothing there yet, which does not fit
+        // a file with content. (A hunk without old lines against a file which does exist is an
+        // insertion at the top of it, as written by 'diff -U0'.)
+        if (creates_file && !lines.empty() && hunk.old_file_range.start_line == 0 && hunk.old_file_range.number_of_lines == 0)
+            location = {};
 
         // POSIX specifies that until a hunk successfully applies, patch should check if the patch given is reversed.
         if (hunk_num == 0 && should_check_if_patch_is_reversed(location, options)) {
